@@ -8,8 +8,8 @@ Implementation side (observed at the public interfaces only):
   * `mokapot.picked_protein.strip_peptides` for exotic notations that never survive the mapping checks.
   * `mokapot.peptides.match_decoy` (the pairing step of `group_without_decoys`, target-only FASTA), with the
     seeded shuffle obtained independently from the pandas primitive `Series.sample` itself.
-Model side: driver ops `strip`, `picked`, `pickedq`, `spec-C15`, `matchdecoy`, `pickedfull`, `pickedfiles`
-(+ `qspec` of C01).
+Model side: driver ops `strip`, `picked`, `pickedq`, `spec-C15`, `matchdecoy`, `pickedfull`, `pickedfiles`,
+`pickedrun` (several collections / calls, chunk-wise writer), `joingroup` (+ `qspec` of C01).
 The spec is evaluated on the implementation's output twice, independently of the model: by the Lean
 checker `spec-C15` (proved equivalent to `SpecEntries`) and by a direct Python re-statement that uses the
 generator's ground truth (the residue sequence behind every rendered peptide) instead of any stripping.
@@ -38,11 +38,16 @@ logging.disable(logging.CRITICAL)
 warnings.simplefilter("ignore")
 
 RULE = (
-    "cases = (FASTA text with subset/duplicate/overlapping proteins, with or without decoy entries -> real "
-    "read_fasta -> Proteins; peptide table rendered in one of 9 modification/flank notations; scores tie-free or "
-    "tied; seed given as int or numpy Generator; row labels of the table range/permuted/offset/duplicated; entry point "
-    "picked_protein or assign_confidence result files, the latter from text or Parquet input, with decoys=True/False, "
-    "descs=[True]/[False], tie-free or tied scores; match_decoy on random target/decoy lists; strip_peptides on "
+    "cases = (FASTA text with subset/duplicate/overlapping proteins, with or without decoy entries, identifiers plain / "
+    "UniProt-like / odd / made of prefix letters / holding commas -> real read_fasta -> Proteins; peptide table rendered "
+    "in one of 9 modification/flank notations; table shapes random mixture / empty / placed exactly on and one row above "
+    "the thresholds of the 10 % and 5 % rules; scores tie-free or tied, small or needing 25 significant bits (not "
+    "float32-representable); seed given as int or numpy Generator; row labels of the table range/permuted/offset/duplicated; "
+    "entry point picked_protein or assign_confidence result files, the latter from text or Parquet input, with "
+    "decoys=True/False, descs=[True]/[False], CONFIDENCE_CHUNK_SIZE default / 1..7 rows, tie-free or tied scores, one "
+    "collection or 2-3 collections in one call (prefixes absent / distinct / mixed / repeated / empty string, optionally "
+    "a second call with append_to_output_file=True on the same directory); group names of read_fasta vs joinGroup; "
+    "match_decoy on random target/decoy lists; strip_peptides on "
     "well-formed, listed exotic and random bracket/dot strings); distinct = distinct (protein "
     "maps, stripped table with score ranks and labels); non-trivial = at least one pair with >= 2 candidate rows "
     "or a shared/unmappable peptide in the table; thorough adds the exhaustive sweep over all tables of <= 3 rows "
@@ -118,7 +123,7 @@ def gen_db(rng, big=False, wide=False):
         rng.shuffle(s)
         sets.append(s)
     prefix = rng.choice(PREFIXES)
-    style = rng.choice(["plain", "plain", "uniprot", "odd", "prefix-letters"])
+    style = rng.choice(["plain", "plain", "uniprot", "odd", "prefix-letters", "comma"])
     names = []
     for j in range(nprot):
         if style == "plain":
@@ -136,6 +141,11 @@ def gen_db(rng, big=False, wide=False):
             else:
                 nm = f"P{j}"
             names.append(nm)
+        elif style == "comma":
+            # legal FASTA identifiers that hold a comma (the identifier is the header up to the first blank, so never
+            # the separator ", " itself); group names are joined with ", " and the first member is read back by
+            # picked_protein: these databases must be handled like any other
+            names.append(rng.choice(["P,", "P,", "a,b", "Q,x", ",", "gi,"]) + str(j) + rng.choice(["", "", ",v2"]))
         else:
             names.append(rng.choice(["P", "p", "dec", "Z|z", "1", "P1", "a;b", "x-"]) + str(j))
     mode = rng.choice(["paired", "paired", "paired", "none", "none", "partial"])
@@ -173,7 +183,7 @@ def gen_db(rng, big=False, wide=False):
     fasta = "\n".join(lines) + "\n"
     params = dict(enzyme="[KR]", missed_cleavages=rng.choice([0, 0, 0, 1]), min_length=2, max_length=50,
                   decoy_prefix=prefix)
-    return dict(fasta=fasta, params=params, pool=pool, mode=mode, pat=pat, wide=wide)
+    return dict(fasta=fasta, params=params, pool=pool, mode=mode, pat=pat, wide=wide, name_style=style)
 
 
 def load_proteins(db):
@@ -193,6 +203,35 @@ def mk_proteins(pd_):
 
     return Proteins(pd_["prefix"], dict(pd_["peptide_map"]), dict(pd_["protein_map"]),
                     {k: "x; y" for k in pd_["shared"]}, pd_["has_decoys"])
+
+
+def known_names(P):
+    """every protein name of the database (targets and their decoy names): the keys and values of the name map
+    read_fasta builds from the identifiers themselves"""
+    return set(P["protein_map"].keys()) | set(P["protein_map"].values())
+
+
+def members_of(P, g):
+    """the member names that were joined (", ") into the group name `g`, recovered with the names of the database
+    (not by splitting at commas: identifiers may hold commas); None if `g` is not such a join"""
+    known = known_names(P)
+    out, rest = [], g
+    while True:
+        cands = sorted((n for n in known if rest == n or rest.startswith(n + ", ")), key=len, reverse=True)
+        if not cands:
+            return None
+        n = cands[0]
+        out.append(n)
+        if rest == n:
+            return out
+        rest = rest[len(n) + 2:]
+
+
+def first_of(P, g):
+    """first member of a group: by the names of the database; for a group name that is no join of known names
+    (hand-made maps of the corpus) the text up to the first separator ", " """
+    m = members_of(P, g)
+    return m[0] if m else g.split(", ")[0]
 
 
 def pair_order_mismatches(P):
@@ -270,7 +309,7 @@ def anagram_decoys(rng, seq):
     return "".join(body) + seq[-1]
 
 
-def gen_table(rng, db, P, big=False, e2e=False):
+def gen_table(rng, db, P, big=False, e2e=False, tiefree=False):
     pm = P["peptide_map"]
     pre = P["prefix"]
     uniq_t = [p for p, g in pm.items() if not g.startswith(pre)]
@@ -289,9 +328,31 @@ def gen_table(rng, db, P, big=False, e2e=False):
     n = rng.choice([12, 16, 20, 30, 40] if (db or {}).get("wide") else [1, 2, 3, 4, 5, 6, 8, 10, 12, 16, 20, 30] + ([40, 60, 100] if big else []))
     flip = rng.choice([0, 0, 0, 0.05, 0.2])
     style = rng.choice(STYLES + (["sparse"] * 3 if n >= 10 else []))
+    # table shapes: random mixtures, the empty table, and tables placed on the thresholds of the two digest rules
+    # (exactly a tenth / a tenth plus one row unmappable; exactly a twentieth / one more of the decoy rows)
+    shape = "random"
+    if not e2e and not (db or {}).get("wide"):
+        shape = rng.choice(["random"] * 40 + ["empty"] + (["tenth"] * 3 if uniq_t else []) +
+                           (["twentieth"] * 2 if (P["has_decoys"] and uniq_d) else []))
     rows = []
-    for _ in range(n):
-        if not kinds or rng.random() < junk_rate:
+    if shape == "empty":
+        n = 0
+    elif shape == "tenth":
+        n = rng.choice([10, 20, 30])
+        k = n // 10 + rng.choice([0, 0, 1])
+        jk = rng.choice(["junkt", "junkd"]) if P["has_decoys"] else "junkt"
+        plan = [jk] * k + [rng.choice(["ut"] * 3 + (["ud"] * 3 if uniq_d else []) + (["sh"] if shared else [])) for _ in range(n - k)]
+        rng.shuffle(plan)
+    elif shape == "twentieth":
+        d = rng.choice([20, 20, 40] if big else [20])
+        u = d // 20 + rng.choice([0, 0, 1])
+        plan = ["ud"] * d + ["junkt"] * u + ["ut"] * (rng.randint(0, 4) if uniq_t else 0)
+        rng.shuffle(plan)
+        n = len(plan)
+    for i in range(n):
+        if shape in ("tenth", "twentieth"):
+            k = plan[i]
+        elif not kinds or rng.random() < junk_rate:
             k = rng.choice(["junkt", "junkd"])
         else:
             k = rng.choice(kinds)
@@ -309,7 +370,7 @@ def gen_table(rng, db, P, big=False, e2e=False):
         else:
             seq = "".join(rng.choice("WY") for _ in range(rng.randint(2, 4))) + "K"
             tgt = k == "junkt"
-        if rng.random() < flip:
+        if shape == "random" and rng.random() < flip:
             tgt = not tgt
         rows.append(dict(target=tgt, seq=seq, kind=k))
     # one notation per table; different renderings of the same sequence are different rows
@@ -320,13 +381,18 @@ def gen_table(rng, db, P, big=False, e2e=False):
     opts = None
     if e2e:
         opts = dict(fmt=rng.choice(["pin", "pin", "parquet"]), decoys=rng.random() < 0.7, desc=rng.random() < 0.7,
-                    groups=rng.choice([0, 0, 2, 3]))
+                    groups=rng.choice([0, 0, 2, 3]),
+                    # CONFIDENCE_CHUNK_SIZE: default (one piece) or a few rows (1 only on short tables: every piece of
+                    # the PSM table becomes a temporary file of its own)
+                    chunk=rng.choice([None, None, None, 1 if n <= 10 else 3, 2 if n <= 20 else 7, 3, 5]))
     if e2e:
         # (tied scores also leave the row order of the peptide level, hence the draw of match_decoy, to the code:
         #  only with decoys in the FASTA)
         smode = rng.choice(["tiefree", "tiefree", "ties"]) if (opts["decoys"] and P["has_decoys"]) else "tiefree"
     else:
         smode = rng.choice(["tiefree", "tiefree", "ties", "ties", "allequal"])
+    if tiefree:
+        smode = "tiefree"
     denom = rng.choice([1, 1, 2, 4])
     if smode == "tiefree":
         vals = rng.sample(range(-3 * n - 5, 4 * n + 5), n)
@@ -335,12 +401,22 @@ def gen_table(rng, db, P, big=False, e2e=False):
         vals = [rng.choice(pool) for _ in range(n)]
     else:
         vals = [rng.randint(-5, 5)] * n
+    # magnitude: small integers / quarters, or values that need 25 significant bits (65536 <= |x| < 2^18 with an odd
+    # number of 256ths: exact in float64 and in the text round trip with 14 digits, NOT representable in float32) —
+    # the ties of `vals` are kept (the order is kept or reversed)
+    smag = rng.choice(["small", "small", "small", "wide25"])
+    wsign = rng.choice([1, -1])
     for r, v in zip(rows, vals):
-        r["score"] = str(Fraction(v, denom))
+        if smag == "wide25":
+            r["score"] = str(Fraction(((v + 70000) * 256 + 129) * wsign, 256))
+        else:
+            r["score"] = str(Fraction(v, denom))
+    if smag == "wide25":
+        denom = 256
     return dict(P=P, rows=rows, style=style, smode=smode, seed=rng.choice([0, 0, 1, 2, 7, 42, 12345]),
                 rng_kind=rng.choice(["int", "int", "generator"]), opts=opts,
                 index=rng.choice(["range", "range", "range", "perm", "perm", "offset", "offset", "dup"]), sdtype=rng.choice(["float64", "float64", "int64", "float32"]) if denom == 1 else "float64",
-                pdtype=rng.choice(["str", "str", "object"]),
+                pdtype=rng.choice(["str", "str", "object"]), shape=shape, smag=smag,
                 cols=rng.choice([("Label", "peptide", "score"), ("is_target", "Peptide", "mokapot score"), ("t", "seq", "s")]),
                 entry="e2e" if e2e else "direct", dbmode=db.get("mode") if db else None)
 
@@ -473,7 +549,23 @@ def read_tsv(path):
     return pd.read_csv(path, sep="\t", float_precision="round_trip", keep_default_na=False, dtype=str)
 
 
-E2E_DEFAULT = dict(fmt="pin", decoys=True, desc=True, groups=0)
+E2E_DEFAULT = dict(fmt="pin", decoys=True, desc=True, groups=0, chunk=None)
+
+
+@contextlib.contextmanager
+def confidence_chunk(c):
+    """CONFIDENCE_CHUNK_SIZE as seen by confidence.py (level files and result files are then written and read in
+    pieces of `c` rows); None leaves the default (one piece)"""
+    import importlib
+
+    m = importlib.import_module("mokapot.confidence")
+    old = m.CONFIDENCE_CHUNK_SIZE
+    if c:
+        m.CONFIDENCE_CHUNK_SIZE = int(c)
+    try:
+        yield
+    finally:
+        m.CONFIDENCE_CHUNK_SIZE = old
 
 
 def e2e_opts(case):
@@ -515,7 +607,7 @@ def impl_e2e(case):
             df.to_csv(pin, sep="\t", index=False)
         out = d / name
         out.mkdir()
-        with quiet(), pep_stub():
+        with quiet(), pep_stub(), confidence_chunk(opts.get("chunk")):
             ds = mokapot.read_pin(pin, max_workers=1)[0]
             mokapot.assign_confidence([ds], max_workers=1, scores=[sc], descs=[opts["desc"]], dest_dir=out,
                                       proteins=proteins, prefixes=[None], decoys=opts["decoys"], rng=seed)
@@ -580,8 +672,27 @@ def replicate_pairing(case, stripped):
 # ----------------------------------------------------------------------------
 # the spec, re-stated directly (independent of the Lean model and of any stripping)
 # ----------------------------------------------------------------------------
-def py_candidates(P, rows, dm):
+def first_by_comma(P, g):
+    """the first member as picked_protein read it back before /repo commit bfdfdaf: the text up to the first comma
+    (used only to label a violation that is exactly that repaired defect coming back)"""
+    return g.split(",")[0]
+
+
+COMMA_SIG = "spec:protein names containing a comma"
+
+
+def comma_sig(P, rows, dm, ents, sig):
+    """a violation on a database whose identifiers hold commas that disappears when the pairs are formed by the text
+    up to the first comma (instead of the first member's name) is the defect repaired by /repo commit bfdfdaf; it gets
+    a signature of its own (it is NOT a known finding: it is reported like any other violation)"""
+    if any("," in n for n in known_names(P)) and py_spec(P, rows, dm, ents, first=first_by_comma) is None:
+        return COMMA_SIG
+    return sig
+
+
+def py_candidates(P, rows, dm, first=None):
     """rows: dicts with ground-truth `seq`; returns {pair key: [(row index, group)]}"""
+    first_fn = first or first_of
     pm, prm, pre = P["peptide_map"], P["protein_map"], P["prefix"]
     cands = {}
     for i, r in enumerate(rows):
@@ -591,7 +702,7 @@ def py_candidates(P, rows, dm):
             g = ", ".join(pre + m for m in pm[dm[s]].split(", "))
         if g is None:
             continue
-        first = g.split(",")[0]
+        first = first_fn(P, g)
         cands.setdefault(prm.get(first, first), []).append((i, g))
     return cands
 
@@ -620,16 +731,38 @@ def py_outcome(P, rows, dm):
     return "ok"
 
 
-def py_spec(P, rows, dm, entries):
+def rule_margins(P, rows, dm):
+    """where the table stands relative to the thresholds of the two digest rules (histogram only)"""
+    pm, shared = P["peptide_map"], set(P["shared"])
+    k = u = 0
+    d = sum(1 for r in rows if not r["target"])
+    for r in rows:
+        s_ = r.get("seq")
+        g = pm.get(s_)
+        if g is None and not P["has_decoys"] and s_ in dm and dm[s_] in pm:
+            g = "x"
+        bad = g is None and (P["has_decoys"] or r["target"]) and s_ not in shared
+        k += bad
+        u += bad and r["target"]
+    out = {}
+    if rows and k:
+        out["unmapped_vs_tenth"] = "below" if 10 * k < len(rows) else "exactly" if 10 * k == len(rows) else "above"
+    if P["has_decoys"] and u and d:
+        out["bad_targets_vs_twentieth_of_decoys"] = "below" if 20 * u < d else "exactly" if 20 * u == d else "above"
+    return out
+
+
+def py_spec(P, rows, dm, entries, first=None):
     """None if `entries` (g, peptide, stripped, score, target) meets the property, else the violated clause"""
-    cands = py_candidates(P, rows, dm)
+    first_fn = first or first_of
+    cands = py_candidates(P, rows, dm, first=first_fn)
     pm, prm = P["peptide_map"], P["protein_map"]
     seen = {}
     for e in entries:
         g, pep, st, sc, tg = e[:5]
         if g is None:
             return "entry without a protein group"
-        first = g.split(",")[0]
+        first = first_fn(P, g)
         key = prm.get(first, first)
         if key in seen:
             return "two entries for one target/decoy pair"
@@ -681,15 +814,25 @@ def py_pairing_spec(P, rows, dm):
     return None
 
 
-def top_tie_keys(P, rows, dm):
+def top_tie_keys(P, rows, dm, first=None):
     """pair keys whose best score is reached by two different candidate rows (result under-determined)"""
     out = set()
-    for key, lst in py_candidates(P, rows, dm).items():
+    for key, lst in py_candidates(P, rows, dm, first=first).items():
         best = max(Fraction(rows[i]["score"]) for i, _ in lst)
         tops = {(g, rows[i]["peptide"], rows[i]["target"]) for i, g in lst if Fraction(rows[i]["score"]) == best}
         if len(tops) > 1:
             out.add(key)
     return out
+
+
+def tie_free_entry(P, rows, dm):
+    """predicate on group names: the entry of this group is determined (its pair has a single best candidate row)"""
+    t1 = top_tie_keys(P, rows, dm)
+
+    def keep(g):
+        return key_of(P, g) not in t1
+
+    return keep, bool(t1)
 
 
 def rounded(q: Fraction) -> float:
@@ -728,7 +871,7 @@ def ascii_ok(case):
 
 
 def key_of(P, g):
-    first = g.split(",")[0]
+    first = first_of(P, g)
     return P["protein_map"].get(first, first)
 
 
@@ -796,6 +939,13 @@ def eval_direct(chk, cases):
         chk.count("outcome", st if not st.startswith("other") else "other")
         chk.count("rng", c.get("rng_kind", "int"))
         chk.count("row_labels", c["index"])
+        chk.count("table_shape", c.get("shape", "random"))
+        chk.count("score_magnitude", c.get("smag", "small"))
+        chk.count("names_with_comma", any("," in n_ for n_ in known_names(P)))
+        # outside the hypothesis of the pairing theorems (no identifier of read_fasta can hold a blank): tallied
+        chk.count("names_holding_the_separator", any(", " in n_ for n_ in known_names(P)))
+        for k_, v_ in rule_margins(P, rows, dm).items():
+            chk.count(k_, v_)
         if c.get("_mm"):
             chk.count("pair_member_order_mismatch_in_db", True)
         cj = dict(case=jsonable({k_: v for k_, v in c.items() if not k_.startswith("_")}))
@@ -850,7 +1000,7 @@ def eval_direct(chk, cases):
             # the implementation returned entries where the model predicts an exception
             clause = py_spec(P, rows, dm, ents)
             if clause:
-                chk.spec_violation("spec:" + clause, dict(**cj, impl=[str(e) for e in ents], clause=clause))
+                chk.spec_violation(comma_sig(P, rows, dm, ents, "spec:" + clause), dict(**cj, impl=[str(e) for e in ents], clause=clause))
             else:
                 chk.corr_break("picked-raises", dict(**cj, impl="ok", model=model))
             continue
@@ -861,16 +1011,19 @@ def eval_direct(chk, cases):
             clause = mirrored_clause(P, ents)
         if clause:
             sig = "spec:" + clause.split(":")[0]
-            if c["index"] == "dup":
+            if comma_sig(P, rows, dm, ents, sig) == COMMA_SIG:
+                sig = COMMA_SIG
+                clause = "protein identifiers holding a comma (pairs formed by the text up to the first comma): " + clause
+            elif c["index"] == "dup":
                 sig = "spec:duplicate row labels"
                 clause = "table with repeated row labels: " + clause
             chk.spec_violation(sig, dict(**cj, impl=[str(e) for e in ents], expected=[str(e) for e in model], clause=clause))
             continue
-        ties = top_tie_keys(P, rows, dm)
+        keep, ties = tie_free_entry(P, rows, dm)
         if ties:
             chk.count("top_tie_case", True)
-        a = sorted(e for e in ents if key_of(P, e[0]) not in ties)
-        b = sorted(e for e in model if key_of(P, e[0]) not in ties)
+        a = sorted(e for e in ents if keep(e[0]))
+        b = sorted(e for e in model if keep(e[0]))
         if a != b:
             chk.corr_break("picked", dict(**cj, impl=[str(e) for e in ents], model=[str(e) for e in model]))
 
@@ -888,10 +1041,10 @@ def mirrored_clause(P, ents):
     return None
 
 
-def py_entries(P, rows, dm):
+def py_entries(P, rows, dm, first=None):
     """the entries the property demands when no two candidate rows of a pair tie (ground truth, no stripping)"""
     out = []
-    for key, lst in py_candidates(P, rows, dm).items():
+    for key, lst in py_candidates(P, rows, dm, first=first).items():
         i, g = max(lst, key=lambda ig: Fraction(rows[ig[0]]["score"]))
         r = rows[i]
         out.append((g, r["peptide"], r["seq"], Fraction(r["score"]), bool(r["target"])))
@@ -929,6 +1082,8 @@ def eval_e2e(chk, cases):
         chk.count("outcome", st if not st.startswith("other") else "other")
         chk.count("e2e_format", opts["fmt"])
         chk.count("e2e_extra_rollup_level", "PeptideGroup" if opts.get("groups") else "none")
+        chk.count("e2e_chunk_size", opts.get("chunk") or "default")
+        chk.count("e2e_score_magnitude", c.get("smag", "small"))
         chk.count("e2e_decoy_files", opts["decoys"])
         chk.count("e2e_higher_is_better", opts["desc"])
         chk.count("e2e_scores", c["smode"])
@@ -1004,7 +1159,8 @@ def eval_e2e(chk, cases):
         if isinstance(mv, str) or isinstance(fv, str):
             clause = py_spec(P, trows, dm, ents) if full else "targets.proteins written although the model predicts " + str(mv)[:40]
             if clause:
-                chk.spec_violation("spec:" + clause, dict(**cj, impl=[str(e) for e in ents], clause=clause))
+                chk.spec_violation(comma_sig(P, trows, dm, [e[:5] for e in ents], "spec:" + clause) if full else "spec:" + clause,
+                                   dict(**cj, impl=[str(e) for e in ents], clause=clause))
             else:
                 chk.corr_break("e2e-raises", dict(**cj, impl="ok", model=str(mv)[:300], model_files=str(fv)[:300]))
             continue
@@ -1048,12 +1204,18 @@ def eval_e2e(chk, cases):
                 if len(qs) != len(exp_ents) or any(np.float32(e[5]) != np.float32(rounded(qof[e[:5]])) for e in ents):
                     clause = "protein q-values differ from the C01 formula over all entries (decoys=False)"
         if clause:
-            chk.spec_violation("spec:" + clause.split(":")[0], dict(**cj, impl=[str(e) for e in ents], expected=[str(e) for e in model], clause=clause))
+            sig = "spec:" + clause.split(":")[0]
+            if full:
+                sig = comma_sig(P, trows, dm, [e[:5] for e in ents], sig)
+            elif any("," in n for n in known_names(P)) and \
+                    sorted(e[:5] for e in ents) == sorted(e for e in py_entries(P, trows, dm, first=first_by_comma) if e[4]):
+                sig = COMMA_SIG
+            chk.spec_violation(sig, dict(**cj, impl=[str(e) for e in ents], expected=[str(e) for e in model], clause=clause))
             continue
         if pep_mismatch:
             chk.corr_break("e2e-peptide-level", pep_mismatch)
             continue
-        ties = top_tie_keys(P, trows, dm)
+        keep, ties = tie_free_entry(P, trows, dm)
         if ties:
             chk.count("top_tie_case", True)
         if full and not ties:
@@ -1063,8 +1225,8 @@ def eval_e2e(chk, cases):
                 chk.corr_break("pickedq", dict(**cj, impl=[str(e) for e in a], model=[str(e) for e in b]))
                 continue
         if full and ties:
-            a = sorted(e[:5] for e in ents if key_of(P, e[0]) not in ties)
-            b = sorted(e[:5] for e in model if key_of(P, e[0]) not in ties)
+            a = sorted(e[:5] for e in ents if keep(e[0]))
+            b = sorted(e[:5] for e in model if keep(e[0]))
             if a != b:
                 chk.corr_break("pickedq", dict(**cj, impl=[str(e) for e in a], model=[str(e) for e in b]))
             continue
@@ -1081,6 +1243,302 @@ def eval_e2e(chk, cases):
                 chk.corr_break("pickedfiles", dict(**cj, file=name, impl=[str(e) for e in fi], model=[str(e) for e in fm]))
                 break
 
+
+
+# ----------------------------------------------------------------------------
+# several collections in one assign_confidence call (and a second, appending call on the same directory)
+# ----------------------------------------------------------------------------
+PREFIX_PATTERNS = {2: [[None, None], [None, None], ["a", "b"], [None, "b"], ["a", None], ["a", "a"], ["", None]],
+                   3: [[None, "b", None], ["a", "b", "a"], [None, None, None], ["a", None, "b"]]}
+
+
+def gen_run(rng, db, P):
+    """2-3 peptide tables of one database analysed by ONE call (one Proteins object, one rng argument, shared level
+    files), prefixes absent / distinct / mixed / repeated; tie-free scores; sometimes a second call with
+    append_to_output_file=True on the same directory"""
+    ncoll = rng.choice([2, 2, 2, 3])
+    tables = []
+    keep_any = rng.random() < 0.2          # a fifth of the runs keeps tables on which picked_protein raises
+    for _ in range(ncoll):
+        for _try in range(6):
+            t = gen_table(rng, db, P, e2e=True, tiefree=True)
+            if keep_any or py_outcome(P, expected_peptide_level(t["rows"], t["opts"]["desc"]), {}) == "ok":
+                break
+        tables.append(t)
+    o = tables[0]["opts"]
+    prefixes = list(rng.choice(PREFIX_PATTERNS[ncoll]))
+    calls = [dict(app=False, idx=list(range(ncoll)), prefixes=prefixes)]
+    if rng.random() < 0.35:
+        j = rng.randrange(ncoll)
+        calls.append(dict(app=True, idx=[j], prefixes=[prefixes[j]]))
+    return dict(entry="run", P=P, fasta=db["fasta"], dbmode=db.get("mode"),
+                tables=[dict(rows=t["rows"], desc=t["opts"]["desc"], style=t["style"], smag=t["smag"]) for t in tables],
+                calls=calls, seed=tables[0]["seed"], rng_kind=tables[0]["rng_kind"],
+                opts=dict(fmt=o["fmt"], decoys=o["decoys"], groups=o["groups"], chunk=o["chunk"]))
+
+
+def run_file_name(prefix, decoy):
+    return (f"{prefix}." if prefix else "") + ("decoys" if decoy else "targets") + ".proteins"
+
+
+def impl_run(case):
+    """the calls of `case` on one directory; returns (status, {file name: [(group, peptide, stripped, score, q)]})"""
+    import mokapot
+
+    opts = case["opts"]
+    d = Path(tempfile.mkdtemp(prefix="run-", dir=tmpdir()))
+    try:
+        pins, scs = [], []
+        for j, t in enumerate(case["tables"]):
+            rows = t["rows"]
+            sc = np.array([float(Fraction(r["score"])) for r in rows], dtype=float)
+            df = pd.DataFrame({
+                "SpecId": [f"t{j}psm{i}" for i in range(len(rows))],
+                "Label": [1 if r["target"] else -1 for r in rows],
+                "ScanNr": np.arange(len(rows)) + 1,
+                "ExpMass": np.arange(len(rows)) + 500,
+                "feat0": sc,
+                "feat1": np.arange(len(rows)) % 3,
+                "Peptide": [r["peptide"] for r in rows],
+                "Proteins": ["prot"] * len(rows),
+            })
+            if opts.get("groups"):
+                ng = int(opts["groups"])
+                df.insert(len(df.columns) - 1, "PeptideGroup", [f"G{(7 * i + 3) % ng}" for i in range(len(rows))])
+            if opts["fmt"] == "parquet":
+                pin = d / f"t{j}.parquet"
+                df.to_parquet(pin, index=False)
+            else:
+                pin = d / f"t{j}.pin"
+                df.to_csv(pin, sep="\t", index=False)
+            pins.append(pin)
+            scs.append(sc)
+        out = d / "out"
+        out.mkdir()
+        proteins = mk_proteins(case["P"])
+        case["_rec"] = []
+        for call in case["calls"]:
+            try:
+                with quiet(), pep_stub(), confidence_chunk(opts.get("chunk")), record_pairing(case["_rec"]):
+                    dss = mokapot.read_pin([pins[j] for j in call["idx"]], max_workers=1)
+                    mokapot.assign_confidence(dss, max_workers=1, scores=[scs[j] for j in call["idx"]],
+                                              descs=[case["tables"][j]["desc"] for j in call["idx"]], dest_dir=out,
+                                              proteins=proteins, prefixes=list(call["prefixes"]), decoys=opts["decoys"],
+                                              rng=rng_arg(case), append_to_output_file=call["app"])
+            except Exception as e:  # noqa: BLE001
+                return classify_exc(e), None
+        files = {}
+        for f in sorted(out.iterdir()):
+            if f.name.endswith(".proteins"):
+                t = read_tsv(f)
+                files[f.name] = [((rec["mokapot protein group"] or None), rec["best peptide"], rec["stripped sequence"],
+                                  Fraction(float(rec["score"])), float(np.float32(float(rec["q-value"]))))
+                                 for rec in t.to_dict("records")]
+        left = [f.name for f in out.iterdir() if not (f.name.endswith(".proteins") or f.name.endswith(".peptides")
+                                                      or f.name.endswith(".psms") or f.name.endswith("s"))]
+        if left:
+            return "other:leftover-" + left[0], None
+        return "ok", files
+    finally:
+        shutil.rmtree(d, ignore_errors=True)
+
+
+def run_expected_files(case, sections):
+    """the declarative rule, re-stated: a file belongs to the collections carrying its prefix; with
+    append_to_output_file all of them append to what was there; otherwise prefix-less collections share their file
+    (sections in call order) and a file with a prefix of its own holds the section of the last collection carrying
+    that prefix.  `sections[j][decoy]` = lines of table j."""
+    files = {}
+    for call in case["calls"]:
+        owners = {}
+        for j, pre in zip(call["idx"], call["prefixes"]):
+            owners.setdefault(pre or "", []).append(j)
+        for pre, js in owners.items():
+            for decoy in ([False, True] if case["opts"]["decoys"] else [False]):
+                name = run_file_name(pre, decoy)
+                if call["app"]:
+                    files[name] = files.get(name, []) + [l for j in js for l in sections[j][decoy]]
+                elif not pre:
+                    files[name] = [l for j in js for l in sections[j][decoy]]
+                else:
+                    files[name] = list(sections[js[-1]][decoy])
+    return files
+
+
+def eval_run(chk, cases):
+    for c in cases:
+        P, opts = c["P"], c["opts"]
+        strs = [P["prefix"], *P["peptide_map"].keys(), *P["peptide_map"].values(), *P["shared"], *P["protein_map"].keys(),
+                *P["protein_map"].values(), *[r["peptide"] for t in c["tables"] for r in t["rows"]]]
+        if not all(x.isascii() and "\n" not in x and "\r" not in x for x in strs):
+            continue
+        st, files = impl_run(c)
+        cj = dict(case=jsonable({k_: v for k_, v in c.items() if not k_.startswith("_")}))
+        pat = ",".join("-" if not p_ else p_ for p_ in c["calls"][0]["prefixes"])
+        chk.count("entry", "run")
+        chk.count("run_collections", len(c["tables"]))
+        chk.count("run_prefixes", pat)
+        chk.count("run_appending_second_call", len(c["calls"]) > 1)
+        chk.count("run_chunk_size", opts.get("chunk") or "default")
+        chk.count("run_format", opts["fmt"])
+        chk.count("run_decoy_files", opts["decoys"])
+        chk.count("run_rng", c.get("rng_kind", "int"))
+        chk.count("has_decoys", P["has_decoys"])
+        chk.count("outcome", st if not st.startswith("other") else "other")
+        chk.case(None, ("run", pat, len(c["calls"]), opts.get("chunk"), opts["decoys"], P["has_decoys"],
+                        tuple(tuple((r["target"], r["peptide"], r["score"]) for r in t["rows"]) for t in c["tables"])),
+                 sample=dict(entry="assign_confidence, several collections", prefixes=c["calls"][0]["prefixes"], opts=opts,
+                             impl={k_: len(v_) for k_, v_ in (files or {}).items()} if files is not None else st))
+        if st.startswith("other"):
+            chk.spec_violation("unexpected-exception:" + st.split(":")[1], dict(**cj, error=st, clause="assign_confidence(psms=[...], proteins=...) raised an unexpected exception"))
+            continue
+        # per table: expected peptide level, pairing (the one the run used, checked against its contract), entries
+        order = [j for call in c["calls"] for j in call["idx"]]          # collections in the order they are analysed
+        rec = c.get("_rec") or []
+        per, bad, broke = {}, None, False
+        sresp = common.driver_batch([req("strip", [r["peptide"] for r in expected_peptide_level(t["rows"], t["desc"])])
+                                     for t in c["tables"]])
+        for pos, j in enumerate(order):
+            t = c["tables"][j]
+            trows = expected_peptide_level(t["rows"], t["desc"])
+            v = dec(sresp[j])
+            stripped = [a_str(x) for x in v] if isinstance(v, list) else []
+            dm = {}
+            if not P["has_decoys"] and pos < len(rec):
+                dm = dict(map(tuple, rec[pos]["result"]))
+                if len(stripped) == len(trows) and all(s_ == r.get("seq") for s_, r in zip(stripped, trows)):
+                    pclause = py_pairing_spec(P, trows, dm)
+                    if pclause:
+                        chk.spec_violation("spec:" + pclause, dict(**cj, collection=j, impl=rec[pos], clause=pclause))
+                        broke = True
+                        break
+                    if c.get("rng_kind", "int") == "int":
+                        rep = replicate_pairing(dict(c, rows=trows), stripped)
+                        if list(rep.items()) != list(dm.items()):
+                            # the same integer seed must draw the same pairing for every collection and every call
+                            chk.corr_break("pairing-args", dict(**cj, collection=j, impl=rec[pos], model=[list(x) for x in rep.items()]))
+                            broke = True
+                            break
+            oc = py_outcome(P, trows, dm)
+            if oc != "ok" and bad is None:
+                bad = oc
+                break                                                      # the run stops at this collection
+            per[j] = dict(trows=trows, dm=dm, sign=1 if t["desc"] else -1)
+        if broke:
+            continue
+        tabs = [c["tables"][j] for j in range(len(c["tables"]))]
+        calls_wire = []
+        for call in c["calls"]:
+            ids = {}
+            colls = []
+            for j, pre in zip(call["idx"], call["prefixes"]):
+                pid = 0 if not pre else 1 + sorted(set(p_ for cl in c["calls"] for p_ in cl["prefixes"] if p_)).index(pre)
+                info = per.get(j) or dict(trows=expected_peptide_level(tabs[j]["rows"], tabs[j]["desc"]), dm={}, sign=1 if tabs[j]["desc"] else -1)
+                raw_rows = [dict(r, score=str(info["sign"] * Fraction(r["score"]))) for r in info["trows"]]
+                colls.append([pid, [[k_, v_] for k_, v_ in info["dm"].items()], wire_rows(raw_rows), bool(tabs[j]["desc"])])
+            calls_wire.append([bool(call["app"]), colls])
+        mv = dec(common.driver_batch([req("pickedrun", *wire_P(P), int(opts.get("chunk") or 1000000), bool(opts["decoys"]), calls_wire)])[0])
+        if bad is not None or st != "ok":
+            if st != "ok":
+                chk.reject(st)
+            if bad is None:
+                clause = "assign_confidence raised (" + st + ") although every rule on mapped/shared peptides is met by every collection"
+                chk.spec_violation("spec:raised-although-mappable", dict(**cj, impl=st, expected=str(mv)[:400], clause=clause))
+            elif st != bad or not (isinstance(mv, str) and mv == st):
+                chk.corr_break("run-raises", dict(**cj, impl=st, expected=bad, model=str(mv)[:300]))
+            continue
+        if isinstance(mv, str):
+            chk.corr_break("run-raises", dict(**cj, impl="ok", model=mv))
+            continue
+        # the sections the property demands (tie-free: unique), under the true first-member pairing and — to attribute
+        # the recorded comma defect — under the pairing by the text up to the first comma
+        def sections_for(first):
+            lines, secs = [], {}
+            for j, info in per.items():
+                ents = py_entries(P, info["trows"], info["dm"], first=first)
+                secs[j] = ents
+                lines.append(req("qspec", True, [[e[3], bool(e[4])] for e in ents]))
+            resp = common.driver_batch(lines) if lines else []
+            out = {}
+            for (j, ents), r in zip(secs.items(), resp):
+                qv = dec(r)
+                qs = [a_rat(x) for x in qv] if isinstance(qv, list) else [None] * len(ents)
+                full = sorted(((e, q) for e, q in zip(ents, qs)), key=lambda x: -x[0][3])
+                out[j] = {dcy: [(e[0], e[1], e[2], e[3], float(np.float32(rounded(q)))) for e, q in full if e[4] != dcy]
+                          for dcy in (False, True)}
+            return out
+        expected = run_expected_files(c, sections_for(None))
+        model_files = {}
+        pres = sorted(set(p_ for cl in c["calls"] for p_ in cl["prefixes"] if p_))
+        for item in mv:
+            pid, dcy, ls = int(a_rat(item[0])), a_bool(item[1]), item[2]
+            if ls == "none":
+                continue
+            name = run_file_name(pres[pid - 1] if pid else None, dcy)
+            model_files[name] = [(a_str(e[0][0]), a_str(e[0][1]), a_str(e[0][2]), a_rat(e[0][3]), float(np.float32(rounded(a_rat(e[1])))))
+                                 for e in ls[0]]
+        if files != expected:
+            sig, clause = "spec:several collections", None
+            if set(files) != set(expected):
+                clause = "several collections: the set of protein result files is not the one the prefixes demand"
+            else:
+                name = next(n_ for n_ in expected if files[n_] != expected[n_])
+                if sorted(l[:4] for l in files[name]) != sorted(l[:4] for l in expected[name]):
+                    clause = f"several collections: {name} does not hold exactly the entries of its own collections"
+                elif [l[:4] for l in files[name]] != [l[:4] for l in expected[name]]:
+                    clause = f"several collections: the sections of {name} are not in call order / score order"
+                else:
+                    clause = f"several collections: q-values in {name} are not the C01 formula over the entries of the own collection"
+            if any("," in n_ for n_ in known_names(P)) and files == run_expected_files(c, sections_for(first_by_comma)):
+                sig = COMMA_SIG
+            chk.spec_violation(sig, dict(**cj, impl={k_: [str(l) for l in v_] for k_, v_ in files.items()},
+                                         expected={k_: [str(l) for l in v_] for k_, v_ in expected.items()}, clause=clause))
+            continue
+        if files != model_files:
+            chk.corr_break("pickedrun", dict(**cj, impl={k_: [str(l) for l in v_] for k_, v_ in files.items()},
+                                             model={k_: [str(l) for l in v_] for k_, v_ in model_files.items()}))
+
+
+def random_runs(rng, n):
+    out = []
+    for _ in range(n):
+        wide = rng.random() < 0.5
+        for _ in range(20):
+            db = gen_db(rng, False, wide=wide)
+            try:
+                P = load_proteins(db)
+                break
+            except ValueError:
+                continue
+        out.append(gen_run(rng, db, P))
+    return out
+
+
+def eval_groups(chk, cases):
+    """group names of the real read_fasta against the model's `joinGroup` / `firstMember`: every group name is the
+    ", "-join of member names of the database, and the first member the code reads back (text up to the first
+    ", ") is the first joined name whenever that name does not hold ", " itself"""
+    seen, todo = set(), []
+    for c in cases:
+        P = c["P"]
+        for g in set(P["peptide_map"].values()):
+            key = (g, tuple(sorted(P["protein_map"].items())))
+            if key in seen:
+                continue
+            seen.add(key)
+            mem = members_of(P, g)
+            if mem is None or not all(x.isascii() and "\n" not in x for x in mem):
+                continue                      # hand-made maps (corpus / mirrored names not in the name map)
+            todo.append((g, mem))
+    resp = common.driver_batch([req("joingroup", mem) for _, mem in todo])
+    for (g, mem), r in zip(todo, resp):
+        v = dec(r)
+        joined, first = (a_str(v[0]), a_str(v[1])) if isinstance(v, list) and len(v) == 2 else (None, None)
+        chk.case(None, ("group", g))
+        chk.count("group_members", min(len(mem), 5))
+        chk.count("group_first_member_has_comma", "," in mem[0])
+        if joined != g or first != g.split(", ")[0] or ((", " not in mem[0]) and first != mem[0]):
+            chk.corr_break("joingroup", dict(group=g, members=mem, model=[joined, first]))
 
 
 def eval_strip(chk, rng, n):
@@ -1277,14 +1735,16 @@ def search(chk):
     if not unknown_violations(chk):
         eval_e2e(chk, random_cases(rng, 60, e2e=True))
     if not unknown_violations(chk):
+        eval_run(chk, random_runs(rng, 40))
+    if not unknown_violations(chk):
         exhaustive(chk, full=True, stride=3)
 
 
 def minimise(chk):
     unknown = unknown_violations(chk)
-    if not chk.spec_violations:
-        return
-    first = unknown[0][0] if unknown else 0   # shrink the first violation that is not a recorded known finding
+    if not chk.spec_violations or not unknown:
+        return                                # nothing to report, or recorded known findings only
+    first = unknown[0][0]                     # shrink the first violation that is not a recorded known finding
     sig, info = chk.spec_violations[first]
     if "case" not in info or not sig.startswith("spec:") or info["case"].get("entry") != "direct" \
             or sig == "spec:raised-although-mappable":
@@ -1318,10 +1778,13 @@ def main(chk, args):
         cc = corpus_cases()
         eval_direct(chk, [c for c in cc if c.get("entry") == "direct"])
         eval_e2e(chk, [c for c in cc if c.get("entry") == "e2e"])
-        eval_direct(chk, random_cases(rng, 1000 if quick else 8000, big=not quick))
+        rc = random_cases(rng, 1000 if quick else 8000, big=not quick)
+        eval_direct(chk, rc)
+        eval_groups(chk, rc)
         eval_strip(chk, rng, 150 if quick else 2000)
         eval_matchdecoy(chk, rng, 150 if quick else 3000)
         eval_e2e(chk, random_cases(rng, 40 if quick else 400, e2e=True))
+        eval_run(chk, random_runs(rng, 8 if quick else 120))
         exhaustive(chk, full=not quick)
         minimise(chk)
     finally:
@@ -1349,8 +1812,20 @@ def main(chk, args):
         "part of the (then unique) expected entries with the C01 q-values over all expected entries",
         "duplicate row labels of the table given to picked_protein are part of the generated input forms; the "
         "implementation returns several rows per pair there (known finding, signature 'spec:duplicate row labels')",
-        "scores are integers or dyadic rationals (exact in float64/float32 and in the text round trip); protein "
+        "scores are integers or dyadic rationals, exact in float64 and in the text round trip (at most 14 significant "
+        "decimal digits); a quarter of the tables uses values of 25 significant bits, which float32 cannot hold; protein "
         "q-values are compared after the same float32 rounding primitive as in C01",
+        "pairs are formed by the NAME of a group's first member (recovered from the group name with the identifiers of "
+        "the database, not by splitting the text) mapped through the target->decoy name map; identifiers holding a comma "
+        "are generated and must be handled like any other (defect repaired by /repo commit bfdfdaf); identifiers "
+        "holding the separator ', ' itself cannot come out of read_fasta, are outside the hypothesis `commaFree` of the "
+        "pairing theorems and are only tallied (histogram names_holding_the_separator)",
+        "several collections in one call: tie-free scores; every collection's peptide level is computed independently, "
+        "its pairing (target-only FASTA) is the one recorded at its own call of match_decoy, checked against the "
+        "contract and, for integer seeds, against a replicated call; the expected files follow the declarative rule "
+        "(prefix-less collections share a file in call order, a prefix of its own holds the last collection carrying "
+        "it, append_to_output_file appends) and the C01 q-values over the entries of the own collection; sqlite output "
+        "is not driven",
     ]
     chk.finish(build, RULE, search=search, lc=lc,
                trusted_extra=["pandas str.replace/str.split/map/sample/sort_values/drop_duplicates/to_csv/read_csv, "
@@ -1376,6 +1851,8 @@ def replay(chk, path):
     try:
         if c.get("entry") == "e2e":
             eval_e2e(chk, [c])
+        elif c.get("entry") == "run":
+            eval_run(chk, [c])
         else:
             eval_direct(chk, [c])
     finally:
